@@ -1,5 +1,6 @@
 (* C11 -- executable model of KDMixWrapper (kappadata/wrappers/sample_wrappers/kd_mix_wrapper.py,
-   REPAIRED tree: fixes/C11_partner_index_int.patch, fixes/C11_label_alias.patch, fixes/C11_partner_ctx.patch), of
+   REPAIRED tree: fixes/C11_partner_index_int.patch, fixes/C11_label_alias.patch, fixes/C11_partner_ctx.patch,
+   fixes/C11_mix_x_out_of_place.patch), of
    to_one_hot_vector (kappadata/utils/one_hot.py) and of the part of ModeWrapper
    (kappadata/wrappers/mode_wrapper.py) that fuses "x" + "class" into one getitem_xclass call and
    unpacks the result.  No proofs in this file.
@@ -13,7 +14,9 @@
 
    NOT modelled: float rounding; tensors of differing rank inside one dataset (ERank: torch's
    broadcasting rules decide there); label vectors whose length is not n_classes; the constructor's
-   argument checks; in-place aliasing (the dataset hands out fresh tensors -- see ASSUMPTIONS). *)
+   argument checks.  This file is the VALUE-level reading of the statements; which tensor objects they create and
+   which they write into (aliasing: the dataset may hand out its stored tensors) is Heap.v, proved to agree with
+   this file in HeapProofs.v. *)
 From Coq Require Import ZArith QArith List Bool Arith.
 Import ListNotations.
 Open Scope Z_scope.
@@ -127,7 +130,7 @@ Definition pad_or_cut_end (x x2 : tensor) : option tensor :=
   let dl := deltas (shape x) (shape x2) in
   unify_loop (length dl) 0 dl (shape x) x2.
 
-(* x.mul_(lamb).add_(x2.mul_(1 - lamb)): in place on x, so the result has x's shape *)
+(* x.clone().mul_(lamb).add_(x2 * (1 - lamb)): in place on the CLONE of x, so the result has x's shape (and dtype) *)
 Definition mix_tensor (lam : Q) (x x2 : tensor) : tensor :=
   {| shape := shape x; at_ := fun idx => (lam * at_ x idx + (1 - lam) * at_ x2 idx)%Q |}.
 
@@ -152,7 +155,7 @@ Fixpoint mix_row (w : Q) (a b : list Q) : list Q :=
 (* ---------- wrapped dataset, configuration, draws ---------- *)
 Record dataset := {
   ds_len : nat;
-  ds_x : nat -> tensor;        (* dataset.getitem_x(idx) -- a fresh tensor on every call *)
+  ds_x : nat -> tensor;        (* the values of dataset.getitem_x(idx) (a clone or the stored tensor itself: Heap.v) *)
   ds_cls : nat -> label;       (* dataset.getitem_class(idx) *)
   ds_ncls : nat                (* getdim_class() *)
 }.
